@@ -835,6 +835,265 @@ theorem copies_independent (o : Opt P S ℝ) (evs : List (Bool × Env P D S ℝ)
        lmRun pr reject o ((evs.filter (fun ev => !ev.1)).map (fun ev => ev.2))) :=
   interleave_independent (lmCall pr reject) evs o o
 
+/-! ## pass 3: every clause over whole call sequences; exact comparison semantics; constructor glue -/
+
+theorem lmRun_take_succ (o : Opt P S ℝ) (es : List (Env P D S ℝ)) (k : Nat) (hk : k < es.length) :
+    lmRun pr reject o (es.take (k + 1)) = lmCall pr reject (lmRun pr reject o (es.take k)) es[k] := by
+  unfold lmRun
+  rw [List.take_succ_eq_append_getElem hk, List.foldl_append]
+  rfl
+
+/-- **Every call of every history** (any number of calls, any pattern of accepted / rejected trials, any solver
+failures): the `k`-th call starts from a consistent optimizer, returns and caches the true loss at the parameters it
+leaves behind, records the true loss at the parameters it was given, makes at most `reject` rejections, and is not worse
+than what it was given unless its own rejections were exhausted. -/
+theorem lmRun_each_call (hinv : ∀ p d, pr.retr (pr.retr p d) (pr.neg d) = p)
+    (o : Opt P S ℝ) (ho : Consistent pr o) (es : List (Env P D S ℝ)) (k : Nat) (hk : k < es.length) :
+    let before := lmRun pr reject o (es.take k)
+    let after := lmRun pr reject o (es.take (k + 1))
+    Consistent pr before ∧ after = lmCall pr reject before es[k] ∧
+      after.cached = some (pr.lossAt after.p) ∧ after.last = some (pr.lossAt before.p) ∧ after.rc ≤ reject ∧
+      (pr.lossAt after.p ≤ pr.lossAt before.p ∨ after.rc = reject) := by
+  intro before after
+  have hb : Consistent pr before := lmRun_consistent pr reject hinv _ o ho
+  have ha : after = lmCall pr reject before es[k] := lmRun_take_succ pr reject o es k hk
+  have hs := lmCall_spec pr reject es[k] hinv before hb
+  rw [ha]
+  exact ⟨hb, rfl, hs.2.1, hs.2.2.1, hs.2.2.2.1, hs.2.2.2.2 _ hs.2.1⟩
+
+/-! ### one stateful solver for the whole run: raising at the j-th solve of the run, for every j -/
+
+theorem lmCallG_fst (gsolve : Nat → P → Option D) (on : Opt P S ℝ × Nat) (upd : S → ℝ → ℝ → D → S) :
+    (lmCallG pr reject gsolve on upd).1 =
+      lmCall pr reject on.1 { solve := fun i p => gsolve (on.2 + i) p, upd := upd } := rfl
+
+/-- **Any stateful solver, any run**: whatever the solver does at each of its calls (raise at the 1st, 7th, 23rd solve
+of the run …), after any number of `step()` calls the cached loss is the true loss at the current parameters. -/
+theorem lmRunG_consistent (hinv : ∀ p d, pr.retr (pr.retr p d) (pr.neg d) = p)
+    (gsolve : Nat → P → Option D) (upds : List (S → ℝ → ℝ → D → S)) (on : Opt P S ℝ × Nat)
+    (ho : Consistent pr on.1) : Consistent pr (lmRunG pr reject gsolve on upds).1 := by
+  induction upds generalizing on with
+  | nil => exact ho
+  | cons u us ih =>
+    show Consistent pr (lmRunG pr reject gsolve (lmCallG pr reject gsolve on u) us).1
+    apply ih
+    rw [lmCallG_fst]
+    exact (lmCall_spec pr reject _ hinv on.1 ho).1
+
+/-- … and the run as a whole makes at most `(reject+1)` solves per call. -/
+theorem lmRunG_solves_le (gsolve : Nat → P → Option D) (upds : List (S → ℝ → ℝ → D → S)) (on : Opt P S ℝ × Nat) :
+    (lmRunG pr reject gsolve on upds).2 ≤ on.2 + upds.length * (reject + 1) := by
+  induction upds generalizing on with
+  | nil => simp [lmRunG]
+  | cons u us ih =>
+    show (lmRunG pr reject gsolve (lmCallG pr reject gsolve on u) us).2 ≤ _
+    have h1 := ih (lmCallG pr reject gsolve on u)
+    have h2 : (lmCallG pr reject gsolve on u).2 ≤ on.2 + (reject + 1) := by
+      show on.2 + _ ≤ _
+      have := (trials_le pr reject { solve := fun i p => gsolve (on.2 + i) p, upd := u } on.1.cached on.1.p on.1.s).1
+      omega
+    simp only [List.length_cons]
+    calc _ ≤ (lmCallG pr reject gsolve on u).2 + us.length * (reject + 1) := h1
+      _ ≤ on.2 + (reject + 1) + us.length * (reject + 1) := by omega
+      _ = on.2 + (us.length + 1) * (reject + 1) := by ring
+
+/-! ### Gauss-Newton over whole histories -/
+
+theorem gnRun_take_succ (o : GNOpt P ℝ) (svs : List (P → Option D)) (k : Nat) (hk : k < svs.length) :
+    gnRun pr o (svs.take (k + 1)) = gnStep pr svs[k] (gnRun pr o (svs.take k)) := by
+  unfold gnRun
+  rw [List.take_succ_eq_append_getElem hk, List.foldl_append]
+  rfl
+
+/-- **Every GN call of every history**: if its solve succeeds it returns the true loss at the new parameters and
+*records the previous loss* (the true loss at the parameters it started from); if the solver raises nothing changes. -/
+theorem gnRun_each_step (o : GNOpt P ℝ) (ho : o.loss = none ∨ o.loss = some (pr.lossAt o.p))
+    (svs : List (P → Option D)) (k : Nat) (hk : k < svs.length) :
+    let before := gnRun pr o (svs.take k)
+    let after := gnRun pr o (svs.take (k + 1))
+    (∀ d, svs[k] before.p = some d →
+        after.p = pr.retr before.p d ∧ after.loss = some (pr.lossAt after.p) ∧ after.last = some (pr.lossAt before.p)) ∧
+    (svs[k] before.p = none → after = before) := by
+  intro before after
+  have hb := gnRun_consistent pr (svs.take k) o ho
+  have ha : after = gnStep pr svs[k] before := gnRun_take_succ pr o svs k hk
+  refine ⟨fun d hd => ?_, fun hn => ?_⟩
+  · rw [ha]; exact gn_step_spec pr svs[k] before d hd hb
+  · rw [ha]; exact gn_raise_safe pr svs[k] before hn
+
+/-! ### exact comparison semantics -/
+
+/-- the three quality bands, as equivalences (`>` is strict in both tests) -/
+theorem verdict_iff (high low num den : ℝ) (hd : den ≠ 0) :
+    (verdict high low num den = Verdict.very ↔ high < num / den) ∧
+    (verdict high low num den = Verdict.ok ↔ num / den ≤ high ∧ low < num / den) ∧
+    (verdict high low num den = Verdict.bad ↔ num / den ≤ high ∧ num / den ≤ low) := by
+  rw [verdict_of_ne high low num den hd]
+  by_cases h1 : high < num / den
+  · simp [h1, not_le.mpr h1]
+  · by_cases h2 : low < num / den
+    · simp [h1, h2, not_lt.mp h1]
+    · simp [h1, h2, not_lt.mp h1, not_lt.mp h2]
+
+/-- **exactly on `high` the step is NOT "very successful"** (it is "successful" if `low < high`) -/
+theorem verdict_at_high (high low den : ℝ) (hd : den ≠ 0) (hlh : low < high) :
+    verdict high low (high * den) den = Verdict.ok := by
+  have hq : high * den / den = high := by field_simp
+  exact ((verdict_iff high low (high * den) den hd).2.1).mpr (by rw [hq]; exact ⟨le_rfl, hlh⟩)
+
+/-- **exactly on `low` the step is "unsuccessful"** (`low ≤ high`) -/
+theorem verdict_at_low (high low den : ℝ) (hd : den ≠ 0) (hlh : low ≤ high) :
+    verdict high low (low * den) den = Verdict.bad := by
+  have hq : low * den / den = low := by field_simp
+  exact ((verdict_iff high low (low * den) den hd).2.2).mpr (by rw [hq]; exact ⟨hlh, le_rfl⟩)
+
+/-- the `den = 0` branch of the model (IEEE: `x/0 = ±inf`, `0/0 = NaN`) -/
+theorem verdict_den_zero (high low num : ℝ) :
+    verdict high low num 0 = if 0 < num then Verdict.very else Verdict.bad := by
+  unfold verdict; rw [isZero_eq]; simp
+
+/-- Adaptive exactly on the thresholds: damping unchanged on `high` (inside the bounds), multiplied by `up` on `low` -/
+theorem adaptive_at_thresholds (h : Hyper ℝ) (s : SState ℝ) (den : ℝ) (hd : den ≠ 0) (hlh : h.low < h.high) :
+    (stratUpd Kind.adaptive h s (h.high * den) den).damping = max h.smin (min s.damping h.smax) ∧
+    (stratUpd Kind.adaptive h s (h.low * den) den).damping = max h.smin (min (s.damping * h.up) h.smax) := by
+  constructor
+  · show (updAdaptive h s (verdict h.high h.low (h.high * den) den)).damping = _
+    rw [verdict_at_high h.high h.low den hd hlh]; simp [updAdaptive, clampMM_eq]
+  · show (updAdaptive h s (verdict h.high h.low (h.low * den) den)).damping = _
+    rw [verdict_at_low h.high h.low den hd (le_of_lt hlh)]; simp [updAdaptive, clampMM_eq]
+
+/-- **The accept test is strict**: a first trial whose loss EQUALS the current loss is accepted (no rejection). -/
+theorem equal_loss_accepted (hinv : ∀ p d, pr.retr (pr.retr p d) (pr.neg d) = p)
+    (p0 : P) (s0 : S) (d0 : D) (hs : e.solve 0 p0 = some d0) (heq : pr.lossAt (pr.retr p0 d0) = pr.lossAt p0) :
+    (lmStep pr reject e none p0 s0).p = pr.retr p0 d0 ∧ (lmStep pr reject e none p0 s0).rc = 0 ∧
+      (lmStep pr reject e none p0 s0).solves = 1 := by
+  have h := lm_accept_spec pr reject e hinv p0 s0 none (Or.inl rfl) (fun _ => d0) 0
+    (by intro i hi; have : i = 0 := by omega
+        subst this; exact hs)
+    (by intro i hi; omega) (Nat.zero_le _) (Or.inl (by rw [heq]; exact lt_irrefl _))
+  rw [h]; exact ⟨rfl, rfl, rfl⟩
+
+/-- … and a first trial that is worse by ANY amount is rejected as long as a rejection is left: the loop goes on from
+the restored parameters with `reject_count = 1`. -/
+theorem worse_loss_rejected (hinv : ∀ p d, pr.retr (pr.retr p d) (pr.neg d) = p)
+    (p0 : P) (s0 : S) (d0 : D) (hs : e.solve 0 p0 = some d0) (hw : pr.lossAt p0 < pr.lossAt (pr.retr p0 d0))
+    (hr : 1 ≤ reject) :
+    let st := loop pr reject e 1 (start pr none p0 s0)
+    st.live = true ∧ st.p = p0 ∧ st.loss = pr.lossAt p0 ∧ st.rc = 1 := by
+  intro st
+  have h := loop_prefix pr reject e hinv p0 (pr.lossAt p0) (fun _ => d0) s0 1
+    (by intro i hi; have : i = 0 := by omega
+        subst this; exact hs)
+    (by intro i hi; exact hw) hr
+  have : st = _ := h
+  rw [this]; exact ⟨rfl, rfl, rfl, rfl⟩
+
+/-! ### the damping trajectory of a call is the documented fold over its trials -/
+
+theorem sAfter_eq_stratRun (kd : Kind) (h : Hyper ℝ) (pr : Prob P D ℝ) (e : Env P D (SState ℝ) ℝ) (den : D → ℝ)
+    (hupd : ∀ s a b d, e.upd s a b d = stratUpd kd h s (a - b) (den d))
+    (p0 : P) (l0 : ℝ) (ds : Nat → D) (s0 : SState ℝ) (i : Nat) :
+    sAfter pr e p0 l0 ds s0 i =
+      stratRun kd h s0 ((List.range i).map (fun j => (l0 - pr.lossAt (pr.retr p0 (ds j)), den (ds j)))) := by
+  induction i with
+  | zero => simp [sAfter, stratRun]
+  | succ i ih =>
+    rw [sAfter_succ, ih, hupd, List.range_succ, List.map_append, stratRun_append]
+    simp [stratRun]
+
+/-- **Damping trajectory of a whole call**: with a library strategy, the param group after a call that ends at trial `j`
+is the documented update folded over the qualities of trials `0..j`, in order — nothing else touches it. -/
+theorem lm_damping_trajectory (kd : Kind) (h : Hyper ℝ) (pr : Prob P D ℝ) (e : Env P D (SState ℝ) ℝ) (den : D → ℝ)
+    (hupd : ∀ s a b d, e.upd s a b d = stratUpd kd h s (a - b) (den d))
+    (hinv : ∀ p d, pr.retr (pr.retr p d) (pr.neg d) = p)
+    (p0 : P) (s0 : SState ℝ) (cached : Option ℝ) (hc : cached = none ∨ cached = some (pr.lossAt p0)) (ds : Nat → D) (j : Nat)
+    (hsolve : ∀ i, i ≤ j → e.solve i p0 = some (ds i))
+    (hworse : ∀ i, i < j → pr.lossAt p0 < pr.lossAt (pr.retr p0 (ds i)))
+    (hj : j ≤ reject) (hacc : ¬ pr.lossAt p0 < pr.lossAt (pr.retr p0 (ds j)) ∨ j = reject) :
+    (lmStep pr reject e cached p0 s0).s =
+      stratRun kd h s0 ((List.range (j + 1)).map
+        (fun i => (pr.lossAt p0 - pr.lossAt (pr.retr p0 (ds i)), den (ds i)))) := by
+  rw [lm_accept_spec pr reject e hinv p0 s0 cached hc ds j hsolve hworse hj hacc]
+  exact sAfter_eq_stratRun kd h pr e den hupd p0 (pr.lossAt p0) ds s0 (j + 1)
+
+/-- Constant: unchanged over any history of updates -/
+theorem constant_run (h : Hyper ℝ) (s : SState ℝ) (qs : List (ℝ × ℝ)) : stratRun Kind.constant h s qs = s := by
+  induction qs generalizing s with
+  | nil => rfl
+  | cons a qs ih => exact ih s
+
+/-- **TrustRegion resets the down-factor on success, whatever happened before**: after a "very successful" or
+"successful" update the down-factor is `clamp(down_init)`, independent of the previous state. -/
+theorem trust_reset_on_success (h : Hyper ℝ) (s s' : SState ℝ) (num den : ℝ) (hd : den ≠ 0) (hq : h.low < num / den) :
+    (stratUpd Kind.trust h s num den).down = max h.smin (min h.down0 h.smax) ∧
+    (stratUpd Kind.trust h s num den).down = (stratUpd Kind.trust h s' num den).down := by
+  have key : ∀ t : SState ℝ, (stratUpd Kind.trust h t num den).down = max h.smin (min h.down0 h.smax) := by
+    intro t
+    by_cases h1 : h.high < num / den
+    · exact ((trust_step h t num den hd).1 h1).2
+    · exact ((trust_step h t num den hd).2.1 h1 hq).2
+  exact ⟨key s, by rw [key s, key s']⟩
+
+/-- the clamp with `min > max` (not excluded by the constructors): the result is `min`, always -/
+theorem clamp_degenerate (h : Hyper ℝ) (x : ℝ) (hdeg : h.smax < h.smin) : clampMM h x = h.smin := by
+  rw [clampMM_eq]
+  exact max_eq_left (le_trans (min_le_right _ _) (le_of_lt hdeg))
+
+/-! ### constructor glue -/
+
+/-- `kernel=None`: the loss is the plain sum of squares -/
+theorem lossOf_none (outs : List (Output ℝ)) :
+    lossOf KSpec.none outs = (outs.map (fun o => (o.map DVec.normSq).sum)).sum := by
+  unfold lossOf normKernels
+  exact robustLoss_single (fun x => x) outs
+
+/-- one kernel object and a one-element list are the same thing, for any number of outputs -/
+theorem lossOf_single_eq_list1 (rho : ℝ → ℝ) (outs : List (Output ℝ)) :
+    lossOf (KSpec.single rho) outs = lossOf (KSpec.list [some rho]) outs := rfl
+
+/-- a `None` entry of a kernel list is the identity kernel for that output -/
+theorem lossOf_list (ks : List (Option (ℝ → ℝ))) (outs : List (Output ℝ)) (hk : 1 < ks.length) :
+    lossOf (KSpec.list ks) outs =
+      (List.zipWith outputLoss (ks.map (fun o => o.getD (fun x => x))) outs).sum := by
+  unfold lossOf normKernels
+  exact robustLoss_multi _ outs (by simpa using hk)
+
+/-- the kernel list an optimizer ends up with is never empty for `None` / a single kernel -/
+theorem normKernels_length (rho : ℝ → ℝ) :
+    (normKernels (KSpec.none : KSpec ℝ)).length = 1 ∧ (normKernels (KSpec.single rho)).length = 1 := ⟨rfl, rfl⟩
+
+/-- `TrustRegion(radius)`: the param group starts with `damping·radius = 1`, so the first update sees exactly the radius
+the user gave -/
+theorem initTrust_spec (radius down : ℝ) (hr : radius ≠ 0) :
+    (initTrust radius down).damping * (initTrust radius down).radius = 1 ∧
+    1 / (initTrust radius down).damping = radius := by
+  simp only [initTrust, k_real, Nat.cast_one]
+  constructor <;> field_simp
+
+/-- … and it is within the strategy's bounds iff radius and down-factor are -/
+theorem initTrust_inBounds (h : Hyper ℝ) (radius down : ℝ) (hr : radius ≠ 0) :
+    InBounds Kind.trust h (initTrust radius down) ↔
+      (h.smin ≤ radius ∧ radius ≤ h.smax ∧ h.smin ≤ down ∧ down ≤ h.smax) := by
+  have := (initTrust_spec radius down hr).1
+  simp only [InBounds]
+  constructor
+  · intro hh; exact ⟨hh.1, hh.2.1, hh.2.2.1, hh.2.2.2.1⟩
+  · intro hh; exact ⟨hh.1, hh.2.1, hh.2.2.1, hh.2.2.2, this⟩
+
+
+/-! non-vacuity of the pass-3 statements -/
+example : Consistent exProb ({ p := 1, s := 0, cached := none, last := none, rc := 0 } : Opt ℝ Nat ℝ) ∧
+    1 < [exEnv, exEnv].length ∧ (∀ p d, exProb.retr (exProb.retr p d) (exProb.neg d) = p) :=
+  ⟨Or.inl rfl, by simp, by intro p d; simp [exProb]⟩
+example : verdict (1/2 : ℝ) (1/1000) ((1/2) * 2) 2 = Verdict.ok := verdict_at_high (1/2 : ℝ) (1/1000) 2 (by norm_num) (by norm_num)
+example : verdict (1/2 : ℝ) (1/1000) ((1/1000) * 2) 2 = Verdict.bad := verdict_at_low (1/2 : ℝ) (1/1000) 2 (by norm_num) (by norm_num)
+/-- a solver stepping to the mirror point `-x` (equal loss `x²`): accepted at once -/
+example : (lmStep exProb 5 ({ solve := fun _ x => some (-2 * x), upd := fun s _ _ _ => s } : Env ℝ ℝ Nat ℝ) none 3 0).rc = 0 :=
+  (equal_loss_accepted exProb 5 _ (by intro p d; simp [exProb]) 3 0 (-2 * 3) rfl (by simp [exProb]; ring)).2.1
+example : (initTrust (10 : ℝ) (1/2)).damping * (initTrust (10 : ℝ) (1/2)).radius = 1 := (initTrust_spec 10 (1/2) (by norm_num)).1
+example : lossOf (KSpec.single (fun x : ℝ => 2 * x)) [[[1, 2]], [[3]]] = lossOf (KSpec.list [some (fun x : ℝ => 2 * x)]) [[[1, 2]], [[3]]] :=
+  lossOf_single_eq_list1 _ _
+
 /-! ## non-vacuity: concrete runs of the model (`P = D = ℚ`-like reals, loss `x²`) -/
 
 section examples
